@@ -323,6 +323,97 @@ func replayBehaviour(states []mstate, n, stopAt int) rec {
 	return r
 }
 
+// fullProbe: the model's send (action P) is not enabled while the channel is full. The real producer is let through its
+// gate cap times without a consumer, then once more: that send must not go through (the after-send hook must stay
+// silent) until a consumer takes a node. A send that goes through a full channel is a difference however slow the machine
+// is; a slow machine can only make a correct producer look even more blocked.
+func fullProbe(n int) rec {
+	r := rec{"kind": "fullprobe", "n": n, "cap": 0, "passedFull": false, "allSeen": false, "inOrder": false, "note": ""}
+	tree, ok := treeWithNodes(n)
+	if !ok {
+		r["note"] = "harness: no tree with that many nodes"
+		return r
+	}
+	arrive := make(chan struct{})
+	release := make(chan struct{})
+	after := make(chan struct{}, n+8)
+	free := make(chan struct{})
+	ast.VerifBeforeSend = func(ast.Node) {
+		select {
+		case arrive <- struct{}{}:
+		case <-free:
+			return
+		}
+		select {
+		case <-release:
+		case <-free:
+		}
+	}
+	ast.VerifAfterSend = func(ast.Node) {
+		select {
+		case after <- struct{}{}:
+		default:
+		}
+	}
+	defer func() { ast.VerifBeforeSend, ast.VerifAfterSend = nil, nil }()
+	iv := ast.NewIterVisitor()
+	seq := iv.All(tree)
+	capN := iv.VerifChanCap()
+	r["cap"] = capN
+	if n <= capN+1 {
+		r["note"] = "harness: the tree does not overfill the channel"
+		close(free)
+		for range seq {
+		}
+		return r
+	}
+	for i := 0; i < capN; i++ { // fill the channel
+		select {
+		case <-arrive:
+		case <-time.After(gateWait):
+			r["note"] = "the producer never reached the gate"
+			close(free)
+			return r
+		}
+		release <- struct{}{}
+		select {
+		case <-after:
+		case <-time.After(gateWait):
+			r["note"] = fmt.Sprintf("send %d did not go through although the channel had room", i+1)
+			close(free)
+			return r
+		}
+	}
+	// one more: the channel is full
+	select {
+	case <-arrive:
+	case <-time.After(gateWait):
+		r["note"] = "the producer did not come back to the gate"
+		close(free)
+		return r
+	}
+	release <- struct{}{}
+	select {
+	case <-after:
+		r["passedFull"] = true
+	case <-time.After(150 * time.Millisecond):
+	}
+	// open the gate and consume everything: all nodes, in document order (the type sequence of a fresh plain walk)
+	close(free)
+	want := []string{}
+	ast.VerifBeforeSend, ast.VerifAfterSend = nil, nil
+	for x := range ast.NewIterVisitor().All(tree) {
+		want = append(want, fmt.Sprintf("%T", x))
+	}
+	got := []string{}
+	for x := range seq {
+		got = append(got, fmt.Sprintf("%T", x))
+	}
+	r["allSeen"] = len(got) == n
+	r["inOrder"] = len(got) <= len(want) && strings.Join(got, ",") == strings.Join(want[:len(got)], ",")
+	return r
+}
+
 // aux = "<directory of behaviours>:<N>:<StopAt>[;<directory>:<N>:<StopAt>...]"
 func gateMode(out, aux string) {
 	recs := []any{}
@@ -345,6 +436,9 @@ func gateMode(out, aux string) {
 			recs = append(recs, r)
 		}
 	}
+	for _, n := range []int{103, 130, 400} {
+		recs = append(recs, fullProbe(n))
+	}
 	writeGate(out, recs)
 }
 
@@ -353,7 +447,7 @@ func writeGate(out string, recs []any) {
 	enc := json.NewEncoder(fo)
 	diffs := 0
 	for _, r := range recs {
-		if r.(rec)["diff"] != "" {
+		if d, ok := r.(rec)["diff"]; ok && d != "" {
 			diffs++
 		}
 		_ = enc.Encode(r)
